@@ -163,7 +163,8 @@ theorem clip_covers_hull_pos (t : Tri K) (hwf : TriWF t)
 example := clip_covers_hull Ex.T Ex.T_wf Ex.T_len Ex.T_nd (2/5, 2/5) Ex.T_visible
 
 /-- … and this is the piece it speaks of: the second fan triangle is positively oriented and
-(2/5, 2/5) = ⅓·(0,0) + ⅓·(3/5,2/5) + ⅓·(2/5,3/5). -/
+(2/5, 2/5) = ⅕·(0,0) + ⅖·(3/5,2/5) + ⅖·(2/5,3/5). -/
 example : 0 < orient2 ((0 : Rat), (0 : Rat)) (3/5, 2/5) (2/5, 3/5) ∧
-    ((2/5, 2/5) : Pt Rat) = comb2 (1/3) (1/3) (1/3) (0, 0) (3/5, 2/5) (2/5, 3/5) := by
-  unfold orient2 comb2; decide +kernel
+    ((2/5, 2/5) : Pt Rat) = comb2 (1/5) (2/5) (2/5) (0, 0) (3/5, 2/5) (2/5, 3/5) := by
+  refine ⟨by norm_num [orient2], ?_⟩
+  apply Prod.ext <;> norm_num [comb2]
